@@ -121,7 +121,7 @@ def judge(prog, exp, bad, obs):
                 # known: conditions are only evaluated for int / float nodes
                 used[R.KEY_COND_IGNORED] = 'wrongly-accepted:condition-on-bool-or-str'
             elif k == 'condition' and nd['ty'] == 'int' and all(
-                    R.eval_cond(p['c'], 'int', R.final_value(nd), nd.get('unit'), trunc=True) is True
+                    True in R.twin_truths(p['c'], 'int', R.final_value(nd), nd.get('unit'))
                     for p in nd['props'] if p['p'] == 'cond'):
                 # known: constants of a condition on an int node are cast to int before the comparison (twin evaluation)
                 used[R.KEY_INT_TRUNC] = 'wrongly-accepted:int-condition-constant-cast-to-int'
@@ -148,7 +148,7 @@ def judge(prog, exp, bad, obs):
             # twin of the int cast: a satisfied condition is judged violated with truncated constants
             failing = obs[2][1] if len(obs[2]) > 1 else None       # the exception names the node
             for nd, c in intconds:
-                if nd['name'] == failing and R.eval_cond(c, 'int', R.final_value(nd), nd.get('unit'), trunc=True) is False:
+                if nd['name'] == failing and False in R.twin_truths(c, 'int', R.final_value(nd), nd.get('unit')):
                     return [dev('wrongly-rejected:int-condition-constant-cast-to-int', dict(exc=obs[1:]), known=R.KEY_INT_TRUNC)]
         return [dev('wrongly-rejected:' + kind, dict(exc=obs[1:]))]
     return []
